@@ -2,8 +2,9 @@
 # usage: seedquick.sh <seed dir name under /verif/seeded or /tmp/seedout>... : applies each stored patch in a scratch
 # worktree of /repo HEAD and runs the QUICK tier of the owning check against it (no baseline tests, no demo).
 for name in "$@"; do
+  case "$name" in *:*) chk=${name#*:}; name=${name%%:*};; *) chk="";; esac
   d=/verif/seeded/$name; [ -d "$d" ] || d=/tmp/seedout/$name
-  id=$(echo "$name" | cut -c1-3)
+  id=$(echo "$name" | cut -c1-3); [ -n "$chk" ] && id=$chk
   WT=/tmp/wt_sq_$$_$name
   git -C /repo worktree add -q --detach $WT HEAD || { echo "$name worktree failed"; continue; }
   if git -C $WT apply "$d/patch.diff" 2>/dev/null || git -C $WT apply --3way "$d/patch.diff" 2>/dev/null; then
